@@ -5,6 +5,8 @@
    owned n R h': the result refers only to cells allocated by the call. *)
 From Curies.model Require Import Str PyData Trie Conv Query Mutate Reconcile Heap.
 From Curies.proofs Require Import StrFacts MutateFacts HeapFacts.
+From Curies.model Require Import CheckR CheckH.
+From Curies.proofs Require Import PModelH.
 
 (* chain: no pre-existing cell is written, the result owns only new cells *)
 Theorem C10_chain : forall fold_c h Cs sens h' R, h_chain fold_c h Cs sens = Val (h', R) ->
@@ -62,3 +64,10 @@ Theorem C10_chain_refines : forall fold_c h Cs cs sens,
   end.
 Proof. exact h_chain_sim. Qed.
 Print Assumptions C10_chain_refines.
+
+(* the executable predicate of the run (no input changed at any step, no Record object shared) accepts the model's own observation
+   for every case, every follow-up history, with and without discover *)
+Theorem C10_P_model : forall (k : rcase) (cs : list conv) (fol : list (record * bool * bool)) (disc : bool),
+  input_convs k = Val cs -> P_C10 (model_hobs k cs fol disc) = true.
+Proof. exact P_C10_model. Qed.
+Print Assumptions C10_P_model.
